@@ -7267,6 +7267,8 @@ fn binop_for_assert(
 
 /// Start evaluation of the expressions in the current stack frame.
 pub(crate) fn eval(env: &mut Env, session: &Session) -> Result<Value, EvalError> {
+    env.values_restored_by_last_error = 0;
+
     if env.stack.0.len() == 1 && env.current_frame().exprs_to_eval.is_empty() {
         // We expect to evaluate a non-zero number of expressions, so
         // we have values pushed to the value stack. This isn't true
@@ -7335,6 +7337,7 @@ pub(crate) fn eval(env: &mut Env, session: &Session) -> Result<Value, EvalError>
             match eval_expr(env, session, Rc::clone(&outer_expr), &mut expr_state) {
                 Err((RestoreValues(restore_values), eval_err)) => {
                     restore_stack_frame(env, (expr_state, Rc::clone(&outer_expr)), &restore_values);
+                    env.values_restored_by_last_error = restore_values.len();
                     return Err(eval_err);
                 }
                 Ok(Some(new_stack_frame)) => {
